@@ -261,6 +261,9 @@ func mapReduceWithPanicChan(source <-chan any, panicChan *onceChan, mapper Mappe
 			return nil, err
 		} else if ok {
 			return v, nil
+		} else if options.ctx.Err() != nil {
+			// 上下文结束后聚合者的输出会被丢弃并关闭 output，此时应报告上下文结束而非无输出
+			return nil, context.DeadlineExceeded
 		} else {
 			return nil, ErrReduceNoOutput
 		}
